@@ -185,6 +185,7 @@ type world struct {
 	interval time.Duration
 	tw       *collection.TimingWheel
 	fake     timex.FakeTicker
+	tickGaps int // fake ticker: 0 = ticks follow each other at one virtual instant; else the clock moves unevenly between ticks
 	t0       time.Time
 	T        int // ticks taken by the wheel so far
 	keys     []*keyState
@@ -537,6 +538,14 @@ func (w *world) rawTick() bool {
 		w.r.Probe("tick-while-execute-callback-parked")
 	}
 	if w.fake != nil {
+		if w.tickGaps > 0 && w.r.Tape.Intn(w.tickGaps+1) > 0 {
+			// the wheel counts ticks, not time: an uneven clock between two ticks of a fake ticker changes nothing
+			g := []time.Duration{w.interval / 2, w.interval + w.interval/2, 3 * w.interval, 17 * w.interval, w.interval - 1, 2*w.interval + 1}[w.r.Tape.Intn(6)]
+			if g > 0 {
+				w.r.Probe("fake-tick-after-uneven-clock-gap")
+				w.r.Sleep(g)
+			}
+		}
 		w.fake.Tick()
 		w.r.Quiesce()
 		if len(w.fake.Chan()) != 0 && w.sd != nil {
@@ -1450,6 +1459,7 @@ func body(r *simrt.Run, tier string) {
 		w.tw, err = collection.NewTimingWheel(interval, n, w.onExecute)
 	} else {
 		w.fake = timex.NewFakeTicker()
+		w.tickGaps = r.Tape.Intn(3)
 		w.tw, err = collection.NewTimingWheelWithTicker(interval, n, w.onExecute, w.fake)
 	}
 	if err != nil {
